@@ -540,13 +540,28 @@ func CheckComposite(c *Composite) error {
 			return fmt.Errorf("component %d: WE_HAVE_INSTRUCTIONS without instructions", i)
 		}
 	}
-	if c.HasInstr && c.Comps[last].Flags&WeHaveInstructions == 0 {
-		return errors.New("instructions without WE_HAVE_INSTRUCTIONS on the last component")
+	if c.HasInstr && !anyInstrFlag(c.Comps) {
+		return errors.New("instructions without WE_HAVE_INSTRUCTIONS on any component")
 	}
 	if !c.HasInstr && len(c.Instr) > 0 {
 		return errors.New("Instr without HasInstr")
 	}
 	return nil
+}
+
+// anyInstrFlag reports whether a component record carries
+// WE_HAVE_INSTRUCTIONS.  The specification only says that the flag means
+// "following the last component are instructions"; it does not say which
+// record has to carry it.  Like the library (and fontTools) the model takes a
+// flag on any record: this is the reading under which every composite value
+// (flags as given, instruction block present) survives Encode/Decode.
+func anyInstrFlag(cc []Component) bool {
+	for _, k := range cc {
+		if k.Flags&WeHaveInstructions != 0 {
+			return true
+		}
+	}
+	return false
 }
 
 // DecodeComposite decodes a composite glyph description (numberOfContours <
@@ -603,7 +618,7 @@ func DecodeComposite(b []byte) (*Composite, int, error) {
 			break
 		}
 	}
-	if c.Comps[len(c.Comps)-1].Flags&WeHaveInstructions != 0 {
+	if anyInstrFlag(c.Comps) {
 		if pos+2 > len(b) {
 			return nil, 0, ErrTruncated
 		}
